@@ -48,6 +48,11 @@ const cstl_STRING_char_t * STRF(str, const struct cstl_STRING * const s)
 /*! @private */
 static void STRF(__resize, struct cstl_STRING * const s, const size_t n)
 {
+    if (n == SIZE_MAX) {
+        /* n + 1 characters cannot be counted, let alone stored */
+        abort();
+    }
+
     cstl_vector_resize(&s->v, n + 1);
     *STRF(__at, s, n) = STRV(nul);
 }
@@ -72,6 +77,10 @@ static void STRF(prep_insert,
 
     if (len > 0) {
         const size_t size = STRF(size, s);
+        if (len > SIZE_MAX - size) {
+            /* the resulting length cannot be represented */
+            abort();
+        }
         STRF(__resize, s, size + len);
         memmove(STRF(__at, s, pos + len),
                 STRF(__at, s, pos),
@@ -153,7 +162,7 @@ static void STRF(substr_prep,
         abort();
     }
 
-    if (pos + *len > size) {
+    if (*len > size - pos) {
         *len = size - pos;
     }
 }
